@@ -943,6 +943,19 @@ func c18SortInput(in *c18Input, mode string) {
 	sort.SliceStable(in.Recs, func(i, j int) bool { return less(in.Recs[i], in.Recs[j]) })
 }
 
+// c18GenPos: positions 0..3 (ties are frequent), and the boundaries of the BAM position field: -1 (a record
+// that has a reference but no position, SAM POS 0 — legal, written and read back unchanged, and the smallest
+// position of its reference), 2^30 and 2^31-1.
+func c18GenPos(rnd *Rand) int {
+	switch rnd.intn(12) {
+	case 0, 1:
+		return -1
+	case 2:
+		return []int{1 << 30, 1<<31 - 1, 1<<31 - 2}[rnd.intn(3)]
+	}
+	return rnd.intn(4)
+}
+
 func c18Gen(rnd *Rand, thorough bool) (c18Case, string) {
 	var cs c18Case
 	cs.RD = 1
@@ -1010,14 +1023,14 @@ func c18Gen(rnd *Rand, thorough bool) (c18Case, string) {
 			r := c18Rec{Name: c18NamePool[rnd.intn(len(c18NamePool))], Ref: -1, Pos: -1, Mate: -1, MatePos: -1}
 			if len(in.Refs) > 0 && !rnd.coin(1, 5) {
 				r.Ref = rnd.intn(len(in.Refs))
-				r.Pos = rnd.intn(4)
+				r.Pos = c18GenPos(rnd)
 			}
 			if len(in.Refs) > 0 && rnd.coin(3, 5) {
 				r.Mate = rnd.intn(len(in.Refs))
 				if rnd.coin(1, 3) && r.Ref >= 0 {
 					r.Mate = r.Ref
 				}
-				r.MatePos = rnd.intn(4)
+				r.MatePos = c18GenPos(rnd)
 			}
 			in.Recs = append(in.Recs, r)
 		}
@@ -1115,6 +1128,12 @@ func c18Witnesses() []c18Case {
 		{Less: "nil", RD: 1, Inputs: []c18Input{badMid, in("unsorted", ab, rec("d", 0, 1, -1, -1))}},
 		// the same, sorted
 		{Less: "nil", RD: 1, Inputs: []c18Input{badMidQ, in("queryname", ab, rec("bb", 0, 1, -1, -1))}},
+		// a placed record without a position (Pos -1, mate likewise) at the head of one coordinate-sorted input,
+		// the other input holding positions >= 0 (and the largest position) on the same reference
+		{Less: "nil", RD: 1, Inputs: []c18Input{
+			in("coordinate", ab, rec("p", 0, -1, 1, -1), rec("q", 0, 2, -1, -1), rec("r", 1, -1, 0, -1), rec("s", 1, 0, -1, -1), rec("t", -1, -1, -1, -1)),
+			in("coordinate", ab, rec("u", 0, 0, -1, -1), rec("v", 0, 1, -1, -1), rec("w", 0, 1<<31-1, -1, -1), rec("x", 1, 5, -1, -1), rec("y", -1, -1, -1, -1)),
+			in("coordinate", ab)}},
 		// reference a with two lengths
 		{Less: "nil", RD: 1, Inputs: []c18Input{in("queryname", ab, rec("a", 0, 1, -1, -1)), otherLen}},
 	}
@@ -1177,7 +1196,7 @@ func checkC18(c *ctx) {
 	runtime.GOMAXPROCS(1)
 	debug.SetMemoryLimit(3 << 30)
 	r := c.res
-	r.Rule = "cases = witnesses of the recorded defects; the grid (2 inputs x every list of 0..2 records over {placed on ref 0 with mate on ref 1, placed on ref 1 with mate on ref 0, unplaced} x {unsorted, queryname, coordinate, custom less} x headers [z a]/[z a] and [z a]/[a c], and again with the second input failing after its last record for unsorted and queryname); then random: k = 0..4 (thorough ..7) BAM inputs written with bam.Writer (0..6 records each, thorough ..40; names over a 7-word pool with prefixes/case, positions 0..3 so ties are frequent, unplaced records, mates on other references), " +
+	r.Rule = "cases = witnesses of the recorded defects; the grid (2 inputs x every list of 0..2 records over {placed on ref 0 with mate on ref 1, placed on ref 1 with mate on ref 0, unplaced} x {unsorted, queryname, coordinate, custom less} x headers [z a]/[z a] and [z a]/[a c], and again with the second input failing after its last record for unsorted and queryname); then random: k = 0..4 (thorough ..7) BAM inputs written with bam.Writer (0..6 records each, thorough ..40; names over a 7-word pool with prefixes/case, positions 0..3 so ties are frequent plus the boundaries -1 (placed record without position), 2^30, 2^31-1 for Pos and MatePos, unplaced records, mates on other references), " +
 		"sort order unknown(nil or custom less pos/namedesc/matepos)/unsorted/queryname/coordinate (occasionally mismatching), reference lists equal/disjoint/overlapping/shuffled (name order != header order, non-monotone links)/none, occasionally with UR:, inputs sorted in the declared order (11/12 of cases), " +
 		"1/4 of cases with one or two failing inputs (read error after record n, or the byte stream cut at an arbitrary offset with an error or a bare EOF). " +
 		"Non-trivial = merger created, k >= 2 and at least 2 records delivered by the inputs; distinct = distinct case."
